@@ -34,6 +34,9 @@ def string_corpus():
             cmds += [[b"SET", b"k1", b"w", b"PX", v], [b"PEXPIRE", b"k1", v], [b"PSETEX", b"k1", v, b"w"]]
         for cmd in cmds:
             out.append(("arg-num-text", [[b"SET", b"k1", b"10"], cmd, [b"GET", b"k1"], [b"PERSIST", b"k1"]]))
+        # the option combinations of SET select different storage functions (set_string_ex / set_string_nx_ex / …)
+        for flag, pre in ((b"NX", []), (b"NX", [[b"SET", b"k1", b"10"]]), (b"XX", []), (b"XX", [[b"SET", b"k1", b"10"]])):
+            out.append(("arg-num-text-set-flags", pre + [[b"SET", b"k1", b"w", b"EX", v, flag], [b"GET", b"k1"], [b"TTL", b"k1"], [b"PERSIST", b"k1"]]))
     return out
 
 
